@@ -64,6 +64,7 @@ type Options struct {
 	StrictRespType    string          `json:"strict_response_type,omitempty"`
 	StrictRespJSON    json.RawMessage `json:"strict_response_json,omitempty"`
 	StrictHandlerErr  bool            `json:"strict_handler_error,omitempty"`
+	Entry             string          `json:"entry,omitempty"`               // which generated entry point mounts the server: "" (with options), plain, from_mux, from_mux_base
 	Warmup            int             `json:"warmup,omitempty"`              // identical requests served on the same handler before the observed one
 	StrictWithOptions bool            `json:"strict_with_options,omitempty"` // net/http flavours: NewStrictHandlerWithOptions
 }
@@ -97,6 +98,9 @@ type ParseCall struct {
 	// how the reply is framed: "length" (Content-Length = len(body)), "chunked" (length unknown, -1), "head" (the reply to
 	// a HEAD request: Content-Length says what a GET would carry, the body is empty); empty = "length"
 	Framing string `json:"framing,omitempty"`
+	// a later reply parsed by the same function before the first response is inspected: what the caller holds from the
+	// first call must not change when the client is used again
+	ThenBody string `json:"then_body,omitempty"`
 }
 
 type RoundTrip struct {
@@ -257,6 +261,11 @@ func run(pkgs map[string]Package, sc *Scenario) (res Result) {
 		if e, _ := outs[1].Interface().(error); e != nil {
 			res.Err = "parse error: " + e.Error()
 			return
+		}
+		if sc.Parse.ThenBody != "" {
+			hr2 := &http.Response{StatusCode: 599, Status: "599 x", Header: http.Header{"Content-Type": {"text/x-later"}}, Body: io.NopCloser(strings.NewReader(sc.Parse.ThenBody)),
+				ContentLength: int64(len(sc.Parse.ThenBody))}
+			reflect.ValueOf(fn).Call([]reflect.Value{reflect.ValueOf(hr2)})
 		}
 		res.Parsed = map[string]json.RawMessage{}
 		v := outs[0].Elem()
